@@ -306,7 +306,8 @@ let parse_ops (s : string) : op list =
 let parse_scripts (s : string) : cscript list =
   if s = "-" then [] else
   List.map (fun c ->
-    if c = "refused" then { cs_refused = true; cs_chunks = []; cs_close = false } else begin
+    if c = "refused" then { cs_refused = true; cs_chunks = []; cs_close = false; cs_silent = false }
+    else if c = "silent" then { cs_refused = false; cs_chunks = []; cs_close = false; cs_silent = true } else begin
       let close = ref false in
       let chunks = List.filter_map (fun item ->
         match item with
@@ -317,7 +318,7 @@ let parse_scripts (s : string) : cscript list =
                     let d = String.sub item 0 k and h = String.sub item (k + 1) (String.length item - k - 1) in
                     Some ((if d = "N" then None else Some (n_of_string d)), unhex h)
                 | None -> failwith "chunk")) (String.split_on_char ',' c) in
-      { cs_refused = false; cs_chunks = chunks; cs_close = !close }
+      { cs_refused = false; cs_chunks = chunks; cs_close = !close; cs_silent = false }
     end) (String.split_on_char '|' s)
 
 let err_text = function
